@@ -30,7 +30,7 @@ PROPS = {
     "C03": {"modules": ["c03_task", "c01_ledger"], "level": "other", "bounded": []},
     "C04": {"modules": ["c04_schedule"], "level": "other", "bounded": []},
     "C06": {"modules": ["c03_task", "c04_schedule"], "level": "other", "bounded": []},
-    "C11": {"modules": ["c04_schedule"], "level": "other", "bounded": []},
+    "C11": {"modules": ["c04_schedule", "c10_containers"], "level": "other", "bounded": []},
     "C07": {"modules": ["c07_order", "c04_schedule"], "level": "other", "bounded": []},
     "C09": {"modules": ["c07_order"], "level": "other", "bounded": []},
     "C16": {"modules": ["c16_scenarios"], "level": "other", "bounded": []},
